@@ -8,6 +8,7 @@ from vf.core import Sub, Violation, Skip
 from hydrodiy.gis.grid import Grid
 
 PROPERTY = "C07"
+# (large-grids sub-check: landmark cells of grids of up to 2^32+ cells)
 RULE = ("Hypothesis-generated geometries: nrows, ncols in 1..40 (weight on 1 "
         "and 2), cell size m*2^e (e in -13..13) or non-dyadic (0.05, 1/3, "
         "0.1*10^k), origins up to 1e4 cell sizes from zero with any sign; "
@@ -21,7 +22,8 @@ RULE = ("Hypothesis-generated geometries: nrows, ncols in 1..40 (weight on 1 "
         "xvalues/yvalues, neighbour offsets/mirror symmetry, invalid cells "
         "flagged. Plus an exhaustive enumeration of all cells and all "
         "half-cell lattice points of every grid up to 6x6 (unit and 0.25 "
-        "cell size). Non-trivial = a point outside on the left/bottom side "
+        "cell size), and landmark cells (corners, around 2^31 and 2^32, a "
+        "spread) of int8 grids of 1.2e7 .. 4.9e9 cells. Non-trivial = a point outside on the left/bottom side "
         "within one cell of the extent, or a single row/column grid, or "
         "|origin|/cellsize > 100.")
 
@@ -86,7 +88,8 @@ def cases(draw, tier):
 
 def make_grid(case):
     return Grid("g", case["ncols"], case["nrows"], cellsize=case["csz"],
-                xllcorner=case["xll"], yllcorner=case["yll"])
+                xllcorner=case["xll"], yllcorner=case["yll"],
+                dtype=np.dtype(case.get("dtype", "float64")).type)
 
 
 def check_cells(g, case, cells):
@@ -416,7 +419,62 @@ def enum_oracle(case):
     return {"nt": True, "labels": [f"csz:{csz:.3g}"]}
 
 
+# ------------------------------------------------------------- large grids
+LARGE_SHAPES = [
+    # nrows, ncols, thorough only; data are int8 and never touched (the
+    # pages are only reserved)
+    (3000, 4000, False), (1, 20_000_000, False), (20_000_000, 1, False),
+    (43_000, 50_000, False), (50_000, 43_000, False),
+    (46_341, 46_341, False), (65_536, 32_768, False),
+    (40, 60_000_000, True), (60_000_000, 40, True), (70_000, 70_000, True),
+    (65_536, 65_537, True),
+]
+
+
+def large_enum(tier):
+    for nr, nc, tho in LARGE_SHAPES:
+        if tho and tier != "thorough":
+            continue
+        for csz, xll, yll in [(0.001, 112.0, -44.0), (25., 0., 0.)]:
+            yield {"nrows": nr, "ncols": nc, "csz": csz, "xll": xll,
+                   "yll": yll, "dtype": "int8"}
+
+
+def large_oracle(case):
+    """Landmark cells of grids with up to more than 2^32 cells: corners,
+    cells around 2^31 and 2^32, a spread of others."""
+    g = make_grid(case)
+    nr, nc = case["nrows"], case["ncols"]
+    n = nr * nc
+    marks = [0, 1, nc - 1, nc, n - nc, n - 1, n // 2, n // 3, n // 7,
+             2**31 - 1, 2**31, 2**31 + 1, 2**31 + nc, 2**32 - 1, 2**32,
+             2**32 + 1, 2**32 + nc]
+    marks += [(n // 97) * k for k in range(1, 97, 5)]
+    cells = sorted({c for c in marks if 0 <= c < n})
+    check_cells(g, case, cells)
+    check_neighbours(g, case, cells)
+    check_invalid(g, case)
+    check_mixed(g, case, [cells[-1], -1, cells[0], n, cells[len(cells) // 2],
+                          n + 2**31, -2**31, 2**62])
+    yv, xv = g.yvalues, g.xvalues
+    if len(yv) != nr or len(xv) != nc:
+        raise Violation(f"xvalues/yvalues lengths {len(xv)}, {len(yv)}")
+    csz, xll, yll = case["csz"], case["xll"], case["yll"]
+    tol = 4 * np.spacing(max(abs(xll), abs(yll)) + max(nr, nc) * csz)
+    if abs(yv[0] - (yll + (nr - 0.5) * csz)) > tol or \
+            abs(yv[-1] - (yll + 0.5 * csz)) > tol or \
+            abs(xv[0] - (xll + 0.5 * csz)) > tol or \
+            abs(xv[-1] - (xll + (nc - 0.5) * csz)) > tol:
+        raise Violation("xvalues/yvalues do not span the cell centres")
+    labels = ["cells:>2^31" if n > 2**31 else "cells:<=2^31"]
+    if n > 2**32:
+        labels.append("cells:>2^32")
+    return {"nt": n > 10**6, "labels": labels}
+
+
 SUBS = [
+    Sub("C07.large-grids", large_oracle, enumerate=large_enum,
+        shards=(7, 11)),
     Sub("C07.generated-geometries", oracle, strategy=cases,
         n=(500, 12000), shards=(8, 16)),
     Sub("C07.exhaustive-small-grids", enum_oracle, enumerate=enum_cases,
